@@ -589,6 +589,13 @@ class SymEval:
         if self._flag_loop(st, frame):
             return
         it = self.eval(st.iter, frame)
+        if it[0] in ("tuple", "list") and len(it[1]) <= 8 and not any(x[0] == "star" for x in it[1]) and not st.orelse \
+                and not any(isinstance(n, (ast.Break, ast.Continue)) for n in ast.walk(st)):
+            # a loop over a short literal sequence is its unrolling (a table walked in order)
+            for x in it[1]:
+                self.assign(st.target, x, frame, st)
+                self.exec_block(st.body, frame)
+            return
         fuse = _fuse_source(it)
         if fuse is not None:
             self._loop("for", st, frame, fuse[0], st.target, proj=("fuse",) + fuse[1:])
@@ -708,6 +715,11 @@ class SymEval:
                         and st.targets[0].id == name:
                     if isinstance(st.value, ast.Constant):
                         return T.const(st.value.value)
+                    if isinstance(st.value, ast.Dict) and st.value.keys and all(isinstance(k, ast.Constant) for k in st.value.keys) \
+                            and all(isinstance(v, (ast.Name, ast.Attribute)) for v in st.value.values) and _never_mutated(mi.tree, name):
+                        # a module-level table of named functions / constants (never written again): known contents
+                        mf = Frame(f"{frame.module}.<module>", frame.module, None, {})
+                        return ("dict", tuple((T.const(k.value), self.eval(v, mf)) for k, v in zip(st.value.keys, st.value.values)))
                     return T.sym(f"rex.{frame.module}.{name}")
         return T.sym(name)  # builtin or unknown global
 
@@ -764,8 +776,8 @@ class SymEval:
 
     def as_bool(self, v: Term) -> Term:
         """Truth value of a container is `len(v) > 0`: `if q:` / `while xs and ...` / `not q` read like the explicit length tests."""
-        if v[0] == "call" and v[1] == "bool" and len(v[2]) == 1 and _seq_like(v[2][0]):
-            v = v[2][0]
+        if v[0] == "call" and v[1] == "bool" and len(v[2]) == 1 and not v[3]:
+            return self.as_bool(v[2][0])  # bool(x) used as a condition is x used as a condition
         if _seq_like(v):
             q = _count_quantifier(ast.Gt(), T.mk_call("len", [v]), T.ZERO)
             return q if q is not None else T.lt(T.ZERO, T.mk_call("len", [v]))
@@ -842,6 +854,8 @@ class SymEval:
         if isinstance(op, (ast.In, ast.NotIn)):
             if b[0] in ("list", "tuple") and not any(x[0] == "star" for x in b[1]):
                 r = T.mk_or([T.eq(a, x, numeric=False) for x in b[1]])
+            elif b[0] == "dict" and b[1] and all(k[0] == "const" for k, _ in b[1]):
+                r = T.mk_or([T.eq(a, k, numeric=False) for k, _ in b[1]])
             else:
                 r = ("in", a, b)
             return r if isinstance(op, ast.In) else T.mk_not(r)
@@ -1083,6 +1097,8 @@ class SymEval:
             return self._callable_leaf(f[2]) and self._callable_leaf(f[3])
         if f[0] == "sym" and f[1].startswith("self.") and f[1].count(".") == 1:
             return True
+        if f[0] == "sym" and f[1] in _OPERATOR_FUNCS:
+            return True
         return False
 
     def fname(self, fterm: Term) -> str:
@@ -1093,6 +1109,9 @@ class SymEval:
         return "<" + T.show(fterm) + ">"
 
     def call(self, fterm, args, kwargs, node, frame, recv=None, method=None) -> Term:
+        if recv is None and fterm[0] == "sym" and fterm[1].startswith("self.") and fterm[1].count(".") == 1:
+            # a bound method held in a variable / table: called like `self.m(...)`
+            recv, method = T.sym("self"), fterm[1].split(".", 1)[1]
         name = self.fname(fterm)
         # user overrides first
         for key in (name, method and "." + method):
@@ -1113,6 +1132,24 @@ class SymEval:
                 return self.call(f, args, kwargs, node, frame)
             self._branch(fterm[1], lambda: out.__setitem__("a", leaf(fterm[2])), lambda: out.__setitem__("b", leaf(fterm[3])), frame)
             return T.mk_ite(fterm[1], out.get("a", T.NONE), out.get("b", T.NONE))
+        if name in _OPERATOR_FUNCS and len(args) == 2 and not kwargs:
+            # operator.gt(a, b) is a > b
+            op = _OPERATOR_FUNCS[name]()
+            return self.cmp(op, args[0], args[1], node) if isinstance(op, ast.cmpop) else self.binop(op, args[0], args[1], node)
+        if name in ("functools.reduce", "reduce") and len(args) == 3 and not kwargs:
+            # functools.reduce(f, xs, init) is the fold loop  acc = init; for x in xs: acc = f(acc, x)
+            loop = ast.parse("for __fold_x in __fold_it:\n    __fold_acc = __fold_fn(__fold_acc, __fold_x)").body[0]
+            for n in ast.walk(loop):
+                if hasattr(n, "lineno") and node is not None:
+                    ast.copy_location(n, node)
+            frame.env.update({"__fold_fn": args[0], "__fold_it": args[1], "__fold_acc": args[2]})
+            self.exec_stmt(loop, frame)
+            out = frame.env.pop("__fold_acc")
+            for k in ("__fold_fn", "__fold_it", "__fold_x"):
+                frame.env.pop(k, None)
+            return out
+        if name == "getattr" and len(args) == 2 and not kwargs and args[1][0] == "const" and isinstance(args[1][1], str) and args[1][1].isidentifier():
+            return T.mk_attr(args[0], args[1][1])  # getattr(x, "a") is x.a
         if name in ("all", "any") and len(args) == 1 and not kwargs and args[0][0] == "comp" and args[0][1] in ("list", "gen") and len(args[0][3]) == 1:
             args = [_canon_quantified(name, args[0])]
         if method == "get" and recv is not None and recv[0] == "dict" and len(args) == 2 and not kwargs:
@@ -1125,7 +1162,7 @@ class SymEval:
             return r
         # in-repo callee?
         target = self.resolve(name, fterm, recv, method, frame)
-        if target is not None and self.model.moved and target.qualname in self.model.moved.values() and self.depth < self.max_depth + 3:
+        if target is not None and self.model.aliases() is not None and self.model.moved and target.qualname in self.model.moved.values() and self.depth < self.max_depth + 3:
             # a nested function of the reference tree that now lives at module level / as a method: applied like the closure it was
             self_t = recv if (target.cls and target.parent is None and _first_param(target.node) in ("self",)) else None
             return self.inline_call(target, args, kwargs, self_t, node, frame)
@@ -1570,6 +1607,27 @@ def merge_returns(returns: List[Tuple[Term, Term]]) -> Term:
     for g, v in reversed(returns[:-1]):
         r = T.mk_ite(g, v, r)
     return r
+
+
+_OPERATOR_FUNCS = {"operator.gt": ast.Gt, "operator.ge": ast.GtE, "operator.lt": ast.Lt, "operator.le": ast.LtE, "operator.eq": ast.Eq,
+                   "operator.ne": ast.NotEq, "operator.add": ast.Add, "operator.sub": ast.Sub, "operator.mul": ast.Mult,
+                   "operator.truediv": ast.Div, "operator.is_": ast.Is, "operator.is_not": ast.IsNot}
+
+
+def _never_mutated(tree: ast.Module, name: str) -> bool:
+    """No statement anywhere in the module stores into `name[...]`, rebinds it a second time or calls a mutating method on it."""
+    binds = 0
+    for n in ast.walk(tree):
+        if isinstance(n, ast.Name) and n.id == name and isinstance(n.ctx, (ast.Store, ast.Del)):
+            binds += 1
+        if isinstance(n, ast.Subscript) and isinstance(n.ctx, (ast.Store, ast.Del)) and isinstance(n.value, ast.Name) and n.value.id == name:
+            return False
+        if isinstance(n, ast.Call) and isinstance(n.func, ast.Attribute) and isinstance(n.func.value, ast.Name) and n.func.value.id == name \
+                and n.func.attr in ("update", "pop", "popitem", "clear", "setdefault", "__setitem__", "__delitem__"):
+            return False
+        if isinstance(n, ast.Global) and name in n.names:
+            return False
+    return binds == 1
 
 
 def _fuse_source(it: Term):
